@@ -141,3 +141,19 @@ def cycle_boundaries(start, nseg, total):
             off += 1
         out.append((off, q))
     return out
+
+
+def randomize_n(b):
+    """
+    The 16-bit signed number RANDOMIZE takes from its argument, from the PC-BASIC reference manual (RANDOMIZE):
+    "The random seed is formed of the last two bytes of that integer or expr. If expr is a float (4 or 8 bytes),
+    these are XORed with the preceding 2. The first 4 bytes of a double are ignored."
+    b = the argument's bytes (2 integer, 4 single, 8 double) as MKI$ / MKS$ / MKD$ give them.
+    """
+    b = bytes(b)
+    lo, hi = b[-2], b[-1]
+    if len(b) >= 4:
+        lo ^= b[-4]
+        hi ^= b[-3]
+    n = lo | (hi << 8)
+    return n - 65536 if n & 0x8000 else n
